@@ -1,30 +1,208 @@
 import DimodProofs.Vars
+import DimodProofs.VarsInv
+import DimodProofs.VarsRelabel
+import DimodProofs.VarsSteps
 
 /-! # C13 — Variables is an order-preserving bijection between labels and indices
 
 Model: `DimodModel/Vars.lean` (`VState`, mirror of `dimod/cyvariables.pyx`).
 Specification: `LSpec` (a duplicate-free list of labels) in the same file.
-`abs : VState → List Label` is what iteration yields. -/
+`abs : VState → List Label` is what iteration yields.
+
+Main results: `step_refines` (every operation preserves the representation invariant and does to
+the iteration order exactly what the list specification says, including whether the call raises)
+and `history_refines` (hence every history from the empty object).  The only side condition is
+`Op.WF`: the key/value literal of a `relabel` has pairwise distinct keys (it is a Python dict);
+`relabel_dupkey_counterexample` shows that it cannot be dropped for the model as written. -/
 
 namespace C13
+
+open VState (Op)
+
+/-- a non-trivial witness state: iteration yields `[2, "a", 0, 3]` -/
+def wS : VState :=
+  { i2l := [(0, .int 2), (1, .str "a"), (2, .int 0)],
+    l2i := [(.int 2, 0), (.str "a", 1), (.int 0, 2)], stop := 4 }
+
+theorem wS_inv : wS.Inv := VState.inv_of_invCheck _ (by decide +kernel)
+theorem wS_abs : wS.abs = [.int 2, .str "a", .int 0, .int 3] := by decide +kernel
 
 /-- membership/`count` of the sparse representation is list membership -/
 theorem count_iff_mem (s : VState) (h : s.Inv) (v : Label) : s.count v = true ↔ v ∈ s.abs :=
   VState.count_iff s h v
+
+example : wS.Inv ∧ wS.count (.int 3) = true ∧ wS.count (.int 1) = false := ⟨wS_inv, by decide +kernel⟩
 
 /-- appending a fresh label appends to the list -/
 theorem append_refines (s : VState) (h : s.Inv) (v : Label) (hv : v ∉ s.abs) :
     (s.append v).abs = s.abs ++ [v] :=
   VState.abs_append s h v hv
 
+example : wS.Inv ∧ Label.int 1 ∉ wS.abs := ⟨wS_inv, by decide +kernel⟩
+
 /-- `index()` is the position in the list: a label sits at exactly one position -/
 theorem index_is_position (s : VState) (h : s.Inv) (i : Nat) (hi : i < s.stop) (v : Label) :
     s.labelAt i = v ↔ (v ∈ s.abs ∧ s.idxOf v = i) :=
   VState.labelAt_eq_iff s h i hi v
+
+example : wS.Inv ∧ 2 < wS.stop ∧ wS.labelAt 2 = .int 0 := ⟨wS_inv, by decide +kernel⟩
 
 /-- one relabel step on the sparse maps is `List.map` on the list -/
 theorem relabelOne_refines (s : VState) (h : s.Inv) (old new : Label) (hold : old ∈ s.abs) (hne : new ≠ old) :
     (s.relabelOne old new).abs = s.abs.map (fun l => if l = old then new else l) :=
   VState.abs_relabelOne s h old new hold hne
 
+example : wS.Inv ∧ Label.str "a" ∈ wS.abs ∧ Label.int 1 ≠ Label.str "a" := ⟨wS_inv, by decide +kernel⟩
+
+/-! ## the bijection -/
+
+/-- iteration never yields a label twice -/
+theorem abs_nodup (s : VState) (h : s.Inv) : s.abs.Nodup := VState.abs_nodup s h
+
+/-- the number of labels is `_stop` -/
+theorem abs_length (s : VState) : s.abs.length = s.stop := VState.abs_length s
+
+/-- `index(v) = i` exactly when the list has `v` at position `i` -/
+theorem index_correct (s : VState) (h : s.Inv) (v : Label) (i : Nat) :
+    s.index? v = some i ↔ s.abs[i]? = some v := VState.index?_eq_some_iff s h v i
+
+/-- `index(v)` raises exactly when `v` is not in the list -/
+theorem index_raises_iff (s : VState) (h : s.Inv) (v : Label) : s.index? v = none ↔ v ∉ s.abs :=
+  VState.index?_eq_none_iff s h v
+
+example : wS.Inv ∧ wS.index? (.int 0) = some 2 ∧ wS.index? (.int 1) = none := ⟨wS_inv, by decide +kernel⟩
+
+/-- `at(idx)` is Python list indexing, negative indices counting from the end, `none` = IndexError -/
+theorem at_correct (s : VState) (idx : Int) :
+    s.at? idx =
+      if 0 ≤ idx then s.abs[idx.toNat]?
+      else if -idx ≤ s.abs.length then s.abs[(s.abs.length + idx).toNat]? else none :=
+  VState.at?_eq s idx
+
+example : wS.at? (-1) = some (.int 3) ∧ wS.at? (-4) = some (.int 2) ∧ wS.at? (-5) = none ∧ wS.at? 4 = none := by
+  decide +kernel
+
+/-! ## the invariant is established and preserved -/
+
+theorem empty_inv : VState.empty.Inv := VState.inv_empty
+
+/-- appending a fresh label keeps the invariant -/
+theorem append_inv (s : VState) (h : s.Inv) (v : Label) (hv : v ∉ s.abs) : (s.append v).Inv :=
+  VState.append_inv s h v hv
+
+/-- the generated label is the documented one and is not yet present -/
+theorem autoLabel_correct (s : VState) (h : s.Inv) :
+    s.autoLabel = LSpec.autoLabel s.abs ∧ s.autoLabel ∉ s.abs :=
+  ⟨VState.autoLabel_eq s h, VState.autoLabel_fresh s h⟩
+
+/-- the documented auto label is never already in the list (pigeonhole) -/
+theorem spec_autoLabel_fresh (l : List Label) : LSpec.autoLabel l ∉ l := VState.spec_autoLabel_fresh l
+
+/-- position 4 would be labelled `4`, but after appending `5` the index label `5` is taken: least free is `1` -/
+example : (wS.append (.int 5)).Inv ∧ (wS.append (.int 5)).autoLabel = .int 1 :=
+  ⟨VState.append_inv wS wS_inv _ (by decide +kernel), by decide +kernel⟩
+
+/-- `pop` removes the last list element -/
+theorem pop_refines (s : VState) (h : s.Inv) (h0 : s.stop ≠ 0) :
+    s.pop = some (s.popState, s.labelAt (s.stop - 1)) ∧ s.popState.Inv ∧
+      s.popState.abs = s.abs.dropLast ∧ s.abs = s.popState.abs ++ [s.labelAt (s.stop - 1)] :=
+  ⟨by rw [VState.pop_eq, if_neg h0], VState.popState_inv s h h0, VState.popState_abs_dropLast s h0,
+    VState.popState_abs s h0⟩
+
+example : wS.Inv ∧ wS.stop ≠ 0 := ⟨wS_inv, by decide +kernel⟩
+
+/-- `relabelOne` keeps the invariant when the old label is present and the new one is not -/
+theorem relabelOne_inv (s : VState) (h : s.Inv) (old new : Label) (hold : old ∈ s.abs) (hnew : new ∉ s.abs) :
+    (s.relabelOne old new).Inv := VState.relabelOne_inv s h old new hold hnew
+
+/-- … and also when it relabels a present label to itself (then nothing changes) -/
+theorem relabelOne_self (s : VState) (h : s.Inv) (old : Label) (hold : old ∈ s.abs) :
+    (s.relabelOne old old).Inv ∧ (s.relabelOne old old).abs = s.abs :=
+  ⟨VState.relabelOne_self_inv s h old hold, VState.relabelOne_self_abs s h old hold⟩
+
+example : wS.Inv ∧ Label.int 0 ∈ wS.abs ∧ Label.int 1 ∉ wS.abs := ⟨wS_inv, by decide +kernel⟩
+
+/-! ## relabel and remove -/
+
+/-- `relabel` of a dict (distinct keys): accepted exactly when the specification accepts; then the
+    invariant holds and the list is the simultaneous substitution (one-phase and two-phase plans) -/
+theorem relabel_refines (s : VState) (h : s.Inv) (m : List (Label × Label)) (hk : (m.map Prod.fst).Nodup) :
+    (LSpec.relabelOk m s.abs = true →
+      ∃ s', s.relabel m = some s' ∧ s'.Inv ∧ s'.abs = LSpec.subst (LSpec.dictOf m) s.abs) ∧
+    (LSpec.relabelOk m s.abs = false → s.relabel m = none) :=
+  VState.relabel_spec s h m hk
+
+/-- a swap plus a chain: needs the two-phase plan with intermediate labels -/
+example : wS.Inv ∧
+    ([(Label.int 2, Label.int 0), (.int 0, .int 2), (.str "a", .int 7)].map Prod.fst).Nodup ∧
+    LSpec.relabelOk [(Label.int 2, Label.int 0), (.int 0, .int 2), (.str "a", .int 7)] wS.abs = true :=
+  ⟨wS_inv, by decide +kernel⟩
+
+/-- `remove(v)` is `List.erase` -/
+theorem remove_refines (s : VState) (h : s.Inv) (v : Label) :
+    (v ∈ s.abs → ∃ s', s.remove v = some s' ∧ s'.Inv ∧ s'.abs = s.abs.erase v) ∧
+    (v ∉ s.abs → s.remove v = none) :=
+  VState.remove_spec s h v
+
+example : wS.Inv ∧ Label.str "a" ∈ wS.abs := ⟨wS_inv, by decide +kernel⟩
+
+/-! ## every step, every history -/
+
+/-- every operation with a well-formed argument preserves the invariant and refines the list
+    specification, including the ok/raise flag -/
+theorem step_refines (s : VState) (h : s.Inv) (op : Op) (hop : op.WF) :
+    (s.step op).1.Inv ∧ ((s.step op).1.abs, (s.step op).2) = LSpec.step s.abs op :=
+  VState.step_refines s h op hop
+
+example : wS.Inv ∧ (Op.relabel [(.int 2, .int 0), (.int 0, .int 2)]).WF ∧ (Op.remove (.str "a")).WF :=
+  ⟨wS_inv, by decide +kernel⟩
+
+/-- for an arbitrary literal (repeated keys allowed) the model run on the Python dict of the literal
+    refines the specification -/
+theorem step_relabel_dictOf_refines (s : VState) (h : s.Inv) (m : List (Label × Label)) :
+    (s.step (.relabel (LSpec.dictOf m))).1.Inv ∧
+      ((s.step (.relabel (LSpec.dictOf m))).1.abs, (s.step (.relabel (LSpec.dictOf m))).2) =
+        LSpec.step s.abs (.relabel m) :=
+  VState.step_relabel_dictOf_refines s h m
+
+/-- histories from the empty object -/
+theorem history_refines (ops : List Op) (hwf : ∀ op ∈ ops, op.WF) :
+    let r := ops.foldl (fun st op => ((st.1.step op).1, (LSpec.step st.2 op).1)) (VState.empty, [])
+    r.1.Inv ∧ r.1.abs = r.2 :=
+  VState.history_refines ops hwf
+
+/-- histories from the empty object, with the ok/raise flags of every call recorded -/
+theorem history_refines_flags (ops : List Op) (hwf : ∀ op ∈ ops, op.WF) :
+    let r := ops.foldl VState.bothStep (VState.empty, [], [])
+    r.1.Inv ∧ r.1.abs = r.2.1 ∧ ∀ p ∈ r.2.2, p.1 = p.2 :=
+  VState.history_refines_flags ops hwf
+
+example : ∀ op ∈ [Op.append none false, .append (some (.str "a")) false, .append (some (.int 0)) true,
+    .relabel [(.int 0, .str "a"), (.str "a", .int 0)], .remove (.str "a"), .pop, .relabelInts, .clear],
+    op.WF := by decide +kernel
+
+/-- `Op.WF` cannot be dropped: on a literal with a repeated key the model (which walks the literal)
+    and the specification (which first builds the dict, last value wins) disagree -/
+theorem relabel_dupkey_counterexample :
+    let s := VState.empty.append (.str "a")
+    let m : List (Label × Label) := [(.str "a", .str "b"), (.str "a", .str "c")]
+    s.abs = [.str "a"] ∧ (s.step (.relabel m)).1.abs = [.str "b"] ∧ (s.step (.relabel m)).2 = true ∧
+      LSpec.step s.abs (.relabel m) = ([.str "c"], true) := by
+  decide +kernel
+
 end C13
+
+section Axioms
+#print axioms C13.abs_nodup
+#print axioms C13.index_correct
+#print axioms C13.at_correct
+#print axioms C13.autoLabel_correct
+#print axioms C13.relabel_refines
+#print axioms C13.remove_refines
+#print axioms C13.step_refines
+#print axioms C13.step_relabel_dictOf_refines
+#print axioms C13.history_refines
+#print axioms C13.history_refines_flags
+#print axioms C13.relabel_dupkey_counterexample
+#print axioms C13.wS_inv
+end Axioms
